@@ -183,6 +183,12 @@ func (aead *aesCBCAEAD) Open(dst, nonce, ciphertext, additionalData []byte) ([]b
 		return nil, errors.New("message authentication failed")
 	}
 
+	// The ciphertext (without tag) must be made of full blocks, or the CBC decrypter would panic
+	// This can happen only if the sender, who has the key, created an authentic tag for a malformed ciphertext
+	if len(ciphertext)%aes.BlockSize != 0 {
+		return nil, errors.New("invalid ciphertext size")
+	}
+
 	// Ensure the destination slice has enough capacity
 	size := len(ciphertext)
 	dstLen := len(dst)
